@@ -19,7 +19,7 @@ LEVEL_TEXT = ("Static structural proof of necessary conditions: (R8.1) in the co
               "with their published codes and reachable from Sidecar.validate; (R8.4) error contexts balanced. Totality "
               "beyond explicit type guards, 'valid sidecar => no error' and reference expansion over all combinations "
               "are NOT decided.")
-LEVEL_EXTRA = "Added after the seeded evaluation: (R8.2) the table indexed by screened reference names is built from the whole sidecar, unfiltered; (R8.5) one reference pattern in all passes; (R8.6) '#' counted on a copy with definitions removed and Def-expand shrunk; (R8.7) results of per-entry loops are accumulated, never last-wins (one frozen exception). (R8.8) no issue list is discarded inside the sidecar validator. (R8.9) every entry passes the placeholder count (known finding F-C08-5 today). (R8.12) every loaded entry reaches the column checks and the reserved-name test is met on every path."
+LEVEL_EXTRA = "Added after the seeded evaluation: (R8.2) the table indexed by screened reference names is built from the whole sidecar, unfiltered; (R8.5) one reference pattern in all passes; (R8.6) '#' counted on a copy with definitions removed and Def-expand shrunk; (R8.7) results of per-entry loops are accumulated, never last-wins (one frozen exception). (R8.8) no issue list is discarded inside the sidecar validator. (R8.9) every entry passes the placeholder count (known finding F-C08-5 today). (R8.12) every loaded entry reaches the column checks and the reserved-name test is met on every path. (R8.13) a parameter is handed on to every repository callee that takes a parameter of the same name (11 frozen exceptions package-wide)."
 
 ROWS = [
     {"key": "SidecarErrors.BLANK_HED_STRING", "code": None},
@@ -327,6 +327,11 @@ def run(ctx):
         ctx.check(v12b.cfg.exit not in r, "R8.12", vcs.qualname, c.ast, loc(vcs, c.ast),
                   "_validate_column_structure can return without having tested the column name against the reserved names",
                   desc="reserved-name test on every path")
+
+    # ---------------- R8.13: parameters are handed on to same-named parameters of repository callees
+    from sa.forward import check_forwarding
+    nfw = check_forwarding(ctx, "R8.13", [f for f in prog.functions.values() if f.module.name.startswith(('hed.validator.sidecar_validator', 'hed.models.sidecar', 'hed.models.column_metadata'))], 'e.g. extra definitions, the error handler')
+    ctx.floor("R8.13", "same-named parameter sites", nfw, 1)
 
 
 REF_FUNCS = {"findall": 2, "finditer": 2, "search": 2, "match": 2, "fullmatch": 2, "sub": 3, "split": 2, "compile": 1}
